@@ -567,6 +567,9 @@ class DestHandler:
             else:
                 if self._params.completion_disposition != CompletionDisposition.CANCELED:
                     self._checksum_verify()
+                    if self.states.state == CfdpState.IDLE:
+                        # The transaction was abandoned by the fault handler.
+                        return
                 self.states.step = TransactionStep.TRANSFER_COMPLETION
 
     def _start_transaction(self, metadata_pdu: MetadataPdu) -> bool:
@@ -828,6 +831,9 @@ class DestHandler:
                 # again manually.
                 if self._params.completion_disposition == CompletionDisposition.CANCELED:
                     return self.state_machine()
+                if self.states.state == CfdpState.IDLE:
+                    # The transaction was abandoned by the fault handler.
+                    return None
             self._params.positive_ack_params.ack_timer.reset()
             self._params.positive_ack_params.ack_counter += 1
             self._prepare_finished_pdu()
@@ -930,6 +936,9 @@ class DestHandler:
         ):
             # We are done and have received everything.
             self._checksum_verify()
+            if self.states.state == CfdpState.IDLE:
+                # The transaction was abandoned by the fault handler.
+                return
             self.states.step = TransactionStep.TRANSFER_COMPLETION
             self._params.acked_params.deferred_lost_segment_detection_active = False
             return
@@ -1160,6 +1169,9 @@ class DestHandler:
         if self._params.check_timer.timed_out():
             if self._checksum_verify():
                 self._file_transfer_complete_transition()
+                return
+            if self.states.state == CfdpState.IDLE:
+                # The transaction was abandoned by the fault handler.
                 return
             if self._params.current_check_count + 1 >= self._params.remote_cfg.check_limit:
                 self._declare_fault(ConditionCode.CHECK_LIMIT_REACHED)
